@@ -149,7 +149,7 @@ def family(tier):
     return F
 
 
-def mc_instance(name, kbd, params, keys, direct, max_states, qmax):
+def mc_instance(name, kbd, params, keys, direct, max_states, qmax, prune_racy=True):
     fkset = "{" + ", ".join('<<%d, "%s">>' % (i, o) for i, o in direct) + "}"
     return {"name": "c18_" + name, "kbd": kbd, "keys": keys, "qmax": qmax,
             "monitor": {"module": "P_C18", "params": params},
@@ -164,7 +164,10 @@ def mc_instance(name, kbd, params, keys, direct, max_states, qmax):
             "extra_next": "\\/ (\\E f \\in FkSet : Fk(f[1], f[2]))",
             # pressing a pressed virtual key stacks another state on the same coordinate (up to 64); the
             # exhaustive instances stop at max_states entries (longer pile-ups are driven on the real code)
-            "constraint": "VkBound", "extra_defs": "VkBound == Len(K.L.states) <= %d" % max_states}
+            # ... and (prune_racy) do not go on behind a toggle issued while the key's state is in flight: that is the
+            # recorded finding, its witnesses are scripted below and found by TLC itself in the unpruned instance
+            "constraint": "VkBound",
+            "extra_defs": "VkBound == Len(K.L.states) <= %d%s" % (max_states, " /\\ ~mon.rt" if prune_racy else "")}
 
 
 # ---- random histories beyond the bounds --------------------------------------------------------------
